@@ -1,12 +1,219 @@
-//! C05 - not built yet.
-use crate::run::Ctx;
-use serde_json::Value;
+//! C05 - PlainDateTime arithmetic, difference and rounding compose date and exact time.
 
-pub fn run(_ctx: &mut Ctx) {
-    eprintln!("property C05 has no check yet");
-    std::process::exit(2);
+use crate::chk;
+use crate::conv::*;
+use crate::gen;
+use crate::refm::civil::*;
+use crate::refm::dateadd::*;
+use crate::refm::dur::{reported_valid, Dur, U};
+use crate::run::*;
+use proptest::prelude::*;
+use serde::{Deserialize, Serialize};
+use serde_json::Value;
+use temporal_rs::error::ErrorKind;
+
+const DAY: i128 = NS_PER_DAY;
+
+#[derive(Serialize, Deserialize, Debug, Clone)]
+pub struct AddCase {
+    pub day: i64,
+    pub ns: i128,
+    pub dur: Dur,
+    pub reject: bool,
+    pub subtract: bool,
+}
+pub struct AddSub;
+impl SubCheck for AddSub {
+    type Case = AddCase;
+    fn name(&self) -> &'static str {
+        "add"
+    }
+    fn eval(&self, c: &AddCase) -> Outcome {
+        let a = Dt { day: c.day, ns: c.ns };
+        let ov = if c.reject { Overflow::Reject } else { Overflow::Constrain };
+        let eff = if c.subtract { c.dur.negated() } else { c.dur };
+        let want = dt_add(a, &eff, ov);
+        let t = c.ns + eff.time_ns();
+        let carry = t.div_euclid(DAY);
+        let ymd = Ymd::from_n(c.day);
+        let mut o = Outcome::pass();
+        let near_limit = match want {
+            Ok(r) => r.day < MIN_DAY + 2 || r.day > MAX_DAY - 2,
+            Err(_) => true,
+        };
+        o = o.nontrivial(carry != 0 || ymd.d >= 29 || near_limit);
+        if carry != 0 {
+            o = o.class("carry-across-midnight");
+        }
+        if eff.time_ns().abs() >= (1i128 << 63) {
+            o = o.class("time>=2^63ns");
+        }
+        if near_limit {
+            o = o.class("near-limit-or-out");
+        }
+        if ymd.d >= 29 && (eff.f[0] != 0 || eff.f[1] != 0) {
+            o = o.class("month-end+ym");
+        }
+        let p = plain_datetime(a).expect("valid datetime");
+        let d = match duration_from_dur(&c.dur) {
+            Ok(d) => d,
+            Err(e) => return o.fail("C05/add/duration-construct", "valid duration", err_str(&e)),
+        };
+        let got = if c.subtract { p.subtract(&d, Some(overflow(ov))) } else { p.add(&d, Some(overflow(ov))) };
+        match (want, got) {
+            (Ok(w), Ok(g)) => chk!(o, dt_of(&g) == w, "C05/add/mismatch", w, dt_of(&g)),
+            (Err(_), Err(e)) => chk!(o, e.kind() == ErrorKind::Range, "C05/add/error-kind", "Range", err_str(&e)),
+            (Ok(w), Err(e)) => o = o.fail("C05/add/unexpected-error", format!("{w:?}"), err_str(&e)),
+            (Err(_), Ok(g)) => o = o.fail("C05/add/accepted", "RangeError", format!("{:?}", dt_of(&g))),
+        }
+        o
+    }
 }
 
-pub fn replay(_ctx: &mut Ctx, _sub: &str, _case: &Value) -> bool {
-    false
+#[derive(Serialize, Deserialize, Debug, Clone)]
+pub struct DiffCase {
+    pub a_day: i64,
+    pub a_ns: i128,
+    pub b_day: i64,
+    pub b_ns: i128,
+    pub largest: U,
+}
+pub struct DiffSub;
+impl SubCheck for DiffSub {
+    type Case = DiffCase;
+    fn name(&self) -> &'static str {
+        "until"
+    }
+    fn eval(&self, c: &DiffCase) -> Outcome {
+        let a = Dt { day: c.a_day, ns: c.a_ns };
+        let b = Dt { day: c.b_day, ns: c.b_ns };
+        let want = dt_until(a, b, c.largest);
+        let mut o = Outcome::pass();
+        let ds = (b.day - a.day).signum();
+        let ts = (b.ns - a.ns).signum() as i64;
+        let opposite = ds != 0 && ts == -ds;
+        let ya = Ymd::from_n(a.day);
+        o = o.nontrivial(opposite || ya.d >= 29 || (a.day == b.day && a.ns != b.ns));
+        if opposite {
+            o = o.class("time-order-opposite-to-date-order");
+        }
+        if a.day == b.day {
+            o = o.class("same-date");
+        }
+        if ya.d >= 29 {
+            o = o.class("start-day>=29");
+        }
+        if b.abs_ns() < a.abs_ns() {
+            o = o.class("negative");
+        }
+        o = o.class(if c.largest.is_date() { "date-largest" } else { "time-largest" });
+        let (pa, pb) = (plain_datetime(a).expect("valid"), plain_datetime(b).expect("valid"));
+        let st = diff_settings(Some(unit(c.largest)), None, None, None);
+        let wf = want.to_f64s();
+        let until = match pa.until(&pb, st) {
+            Ok(u) => u,
+            Err(e) => {
+                // a balanced result whose float fields are not a valid duration is a RangeError
+                if !reported_valid(&want) && e.kind() == ErrorKind::Range {
+                    return o.class("leaves-duration-range");
+                }
+                return o.fail("C05/until/error", format!("{wf:?}"), err_str(&e));
+            }
+        };
+        let got = duration_fields(&until);
+        chk!(o, fields_eq(&got, &wf), "C05/until/mismatch", wf, got);
+        // laws: sign uniform; time part shorter than a day when largest is a date unit
+        let s = (b.abs_ns() - a.abs_ns()).signum() as f64;
+        chk!(o, got.iter().all(|v| *v == 0.0 || v.signum() == s), "C05/until/not-sign-uniform", s, got);
+        if c.largest.is_date() {
+            let tns: f64 = got[4] * 3.6e12 + got[5] * 6e10 + got[6] * 1e9 + got[7] * 1e6 + got[8] * 1e3 + got[9];
+            chk!(o, tns.abs() < 8.64e13, "C05/until/time-part>=24h", "<24h", tns);
+        }
+        // a.add(until) == b (exact only when no float field lost precision)
+        let exact = want.to_f64s().iter().zip(want.f.iter()).all(|(f, i)| *f as i128 == *i);
+        if exact {
+            match pa.add(&until, None) {
+                Ok(r) => chk!(o, dt_of(&r) == b, "C05/law/add-until", b, dt_of(&r)),
+                Err(e) => o = o.fail("C05/law/add-until/error", format!("{b:?}"), err_str(&e)),
+            }
+        }
+        match pa.since(&pb, st) {
+            Ok(si) => {
+                let neg = duration_fields(&until.negated());
+                let gs = duration_fields(&si);
+                chk!(o, fields_eq(&gs, &neg), "C05/law/since-negated", neg, gs);
+            }
+            Err(e) => o = o.fail("C05/law/since/error", "Ok", err_str(&e)),
+        }
+        o
+    }
+}
+
+/// durations for date-time add: date fields as in C04, time fields up to 2^53 s
+fn dt_dur() -> BoxedStrategy<Dur> {
+    let df = |max: i128| -> BoxedStrategy<i128> { prop_oneof![6 => Just(0i128), 4 => 0i128..=3, 2 => 0i128..=40, 2 => 0i128..=max, 1 => (-2i128..=2).prop_map(|k| (1i128 << 31) + k)].boxed() };
+    (prop::bool::ANY, df(560_000), df(6_000_000), df(29_000_000), df(210_000_000), gen::valid_time_dur())
+        .prop_map(|(neg, y, mo, w, d, t)| {
+            let mut f = t.f;
+            let tn = t.sign() < 0;
+            if tn != neg {
+                for x in f.iter_mut() {
+                    *x = -*x;
+                }
+            }
+            let s = if neg { -1 } else { 1 };
+            f[0] = s * y;
+            f[1] = s * mo;
+            f[2] = s * w;
+            f[3] = s * d;
+            Dur { f }
+        })
+        .prop_filter("valid", |d| d.valid())
+        .boxed()
+}
+
+fn add_case() -> BoxedStrategy<AddCase> {
+    (gen::datetime(), dt_dur(), prop::bool::ANY, prop::bool::weighted(0.3)).prop_map(|((day, ns), dur, reject, subtract)| AddCase { day, ns, dur, reject, subtract }).boxed()
+}
+fn diff_case() -> BoxedStrategy<DiffCase> {
+    (gen::day_pair(), gen::ns_of_day(), gen::ns_of_day(), gen::unit_in(0, 9), 0u8..4)
+        .prop_map(|((a, b), x, y, largest, k)| {
+            // k: 0 as drawn, 1 force time order opposite to date order, 2 same date, 3 times within a ns
+            let (mut a_ns, mut b_ns, mut bd) = (x, y, b);
+            match k {
+                1 => {
+                    let (lo, hi) = (x.min(y), x.max(y));
+                    if b >= a {
+                        a_ns = hi;
+                        b_ns = lo;
+                    } else {
+                        a_ns = lo;
+                        b_ns = hi;
+                    }
+                }
+                2 => bd = a,
+                3 => b_ns = (a_ns + 1).min(DAY - 1),
+                _ => {}
+            }
+            DiffCase { a_day: a, a_ns, b_day: bd, b_ns, largest }
+        })
+        .prop_filter("in range", |c| datetime_in_range(c.a_day, c.a_ns) && datetime_in_range(c.b_day, c.b_ns))
+        .boxed()
+}
+
+pub fn run(ctx: &mut Ctx) {
+    ctx.rule = "add/subtract: generated (date-time at ns resolution, valid duration with date fields up to 2^31+-k and time fields up to 2^53 s, overflow) against exact-carry AddDateTime in unbounded integers; until/since: generated pairs (classes: time-of-day order opposite to date order, same date, 1 ns apart, month ends) x all ten largest units against DifferenceISODateTime + laws (sign-uniform, time part < 24 h for date largest units, a.add(a.until(b)) == b, since == -until); round: the PlainDateTime.round cases of C07 (multiples counted within the day, carry into the next day, RangeError when the carry leaves the range). non-trivial = time order opposite to date order, carry across midnight, start day >= 29, same date, or within 2 days of a limit.".into();
+    let t = ctx.tier;
+    ctx.run_prop(&AddSub, &add_case, t.pick(800_000, 30_000_000));
+    ctx.run_prop(&DiffSub, &diff_case, t.pick(800_000, 30_000_000));
+    ctx.run_prop(&crate::props::c07::PubSub, &crate::props::c07::dt_round_case, t.pick(400_000, 10_000_000));
+}
+
+pub fn replay(ctx: &mut Ctx, sub: &str, case: &Value) -> bool {
+    match sub {
+        "add" => ctx.replay_case(&AddSub, case),
+        "until" => ctx.replay_case(&DiffSub, case),
+        "public" => ctx.replay_case(&crate::props::c07::PubSub, case),
+        _ => false,
+    }
 }
